@@ -170,7 +170,11 @@ func (p c19) Gen(c *run.Ctx, idx int) (json.RawMessage, error) {
 			used["upEnt"] = used["upEnt"] || strings.HasPrefix(sels[len(sels)-1], "upEnt")
 			used["upTwo"] = used["upTwo"] || strings.HasPrefix(sels[len(sels)-1], "upTwo")
 		}
-		if r.Intn(4) == 0 {
+		shared := r.Intn(4) == 0
+		if idx%40 == 11 && oi == 0 {
+			shared = true
+		}
+		if shared {
 			// one variable feeding two root fields (possibly owned by different services)
 			defs = append(defs, "$s: Upload")
 			vars["s"] = nil
@@ -210,6 +214,41 @@ func (p c19) Gen(c *run.Ctx, idx int) (json.RawMessage, error) {
 	}
 	if idx%7 == 3 {
 		cs.FaultKind = pick(r, []string{"transport-eof", "transport-reset", "transport-unexpected-eof"})
+	}
+	if idx%40 == 11 {
+		// a file of a size at which a multipart reader may spool it to disk (over 1 MiB), named at ONE path, whose variable
+		// feeds two root fields: every sub-request has to read the whole file from its start
+		sharedPath := "variables.s"
+		if cs.Batch {
+			sharedPath = "0.variables.s"
+		}
+		bound := false
+		for fi := range cs.Files {
+			keep := cs.Files[fi].Paths[:0]
+			for _, pth := range cs.Files[fi].Paths {
+				if pth != sharedPath {
+					keep = append(keep, pth)
+				}
+			}
+			cs.Files[fi].Paths = keep
+		}
+		for fi := range cs.Files {
+			if len(cs.Files[fi].Paths) == 0 && !bound {
+				cs.Files[fi].Paths = []string{sharedPath}
+				cs.Files[fi].Data, cs.Files[fi].GenSize, cs.Files[fi].GenSeed = nil, 1<<20+300000+r.Intn(4096), r.Int63()
+				bound = true
+			}
+		}
+		if !bound {
+			cs.Files = append(cs.Files, c19File{Name: "spooled.bin", Paths: []string{sharedPath}, GenSize: 1<<20 + 300000 + r.Intn(4096), GenSeed: r.Int63()})
+		}
+		var kept []c19File
+		for _, f := range cs.Files {
+			if len(f.Paths) > 0 {
+				kept = append(kept, f)
+			}
+		}
+		cs.Files = kept
 	}
 	if idx%300 == 7 && len(cs.Files) > 0 {
 		// one file larger than the 32 MiB the multipart reader keeps in memory, preferably bound to two paths
